@@ -475,6 +475,73 @@ pub fn prog_timer(iter: u32, tcora: u8, tcr: u8) -> Program {
     finish("timer", a, "")
 }
 
+/// hostile programs for C15: slow bus + long instruction (charge above 85 states), stack running into a hole,
+/// odd jump targets, jumps above the address space, fetch at the end of a region
+pub fn prog_hostile(kind: u32) -> Program {
+    let mut a = Asm::new(BASE);
+    match kind {
+        0 => {
+            a.mov_b_imm(8, 0xff);
+            a.mov_b_store_abs24(8, 0xfee023); // WCRL: three waits everywhere
+            a.mov_l_imm(1, 0x420000);
+            // MOV.L @(d:24,ER1),ER2: 5 fetches + 2 word accesses at 14 states each
+            a.w(0x0100);
+            a.w(0x7810);
+            a.w(0x6b22);
+            a.w(0x0000);
+            a.w(0x0010);
+        }
+        1 => {
+            a.mov_l_imm(7, 0x400002); // pushes run below DRAM
+            a.push_l(0);
+            a.push_l(0);
+        }
+        2 => {
+            a.mov_l_imm(1, 0x416a01); // odd target
+            a.jmp_ind(1);
+        }
+        3 => {
+            a.mov_l_imm(1, 0xff41_6a00); // upper byte set
+            a.jsr_ind(1);
+        }
+        4 => {
+            a.mov_l_imm(7, 0x0000_0002); // RTS with the frame straddling the start of memory
+            a.rts();
+        }
+        5 => {
+            a.mov_l_imm(7, 0xffff_fffe);
+            a.rte();
+        }
+        6 => {
+            a.jmp_abs_addr(0x5ffffe); // last word of DRAM: the next fetch of a 2-word instruction crosses the end
+        }
+        7 => {
+            a.mov_l_imm(0, 113);
+            a.mov_l_imm(1, 0xffff_fffc);
+            a.trapa(0);
+        }
+        8 => {
+            a.mov_l_imm(0, 104);
+            a.mov_l_label(1, "blk");
+            a.trapa(0);
+        }
+        _ => {
+            a.mov_l_imm(2, 0xffff_ffff);
+            a.w(0x6c28); // MOV.B @ER2+,R0L at the top of the address space
+            a.w(0x6ca8); // MOV.B R0L,@-ER2
+        }
+    }
+    epilogue(&mut a);
+    a.label("blk");
+    a.w(0);
+    a.w(1);
+    a.w(0x005f);
+    a.w(0xfff0); // buffer at the end of DRAM
+    a.w(0);
+    a.w(0x0100); // longer than what is left
+    finish("hostile", a, "")
+}
+
 /// idle program for the control-socket replay: counts until stopped
 pub fn prog_idle() -> Program {
     let mut a = Asm::new(BASE);
@@ -501,7 +568,14 @@ pub fn run_run_program(args: &Args) -> Result<()> {
     // state counts: one loop iteration of prog_count costs (16+28+8+8+16)*3 = 228 states
     // (program, iteration budget, lite): lite traces are validated for accounting / sync / continuity only
     // (long runs across sync thresholds); the others instruction by instruction against the full spec
-    let mut progs: Vec<(Program, u64, bool)> = vec![
+    let c15 = args.get("set") == Some("c15");
+    let mut progs: Vec<(Program, u64, bool)> = if c15 {
+        let mut v: Vec<(Program, u64, bool)> = (0..10).map(|k| (prog_hostile(k), 2000u64, false)).collect();
+        for k in 0..5 {
+            v.push((prog_fail(k), 1000, false));
+        }
+        v
+    } else { vec![
         (prog_io(9, &text, "alpha  beta\tgamma"), 100_000, false),
         (prog_fail(0), 1000, false),
         (prog_fail(1), 1000, false),
@@ -512,8 +586,8 @@ pub fn run_run_program(args: &Args) -> Result<()> {
         (prog_timer(150, 200, 0x49), 200_000, false),      // CMIEA, clear on A, clock/8: a match every 1600 states
         (prog_timer(120, 40, 0x6a), 200_000, false),       // CMIEA+OVIE, clear on A, clock/64
         (prog_count(8_800, 1), 200_000, true),             // just past the first sync threshold
-    ];
-    if thorough {
+    ] };
+    if thorough && !c15 {
         progs.push((prog_count(26_500, 3), 400_000, true)); // three thresholds
         progs.push((prog_timer(9000, 200, 0x4b), 400_000, true)); // clock/8192, long
         progs.push((prog_count(17_700, 2), 300_000, true));
@@ -528,6 +602,9 @@ pub fn run_run_program(args: &Args) -> Result<()> {
         let s1 = run_program(p, &elf_path, Some(&log), vec![], *max_iters, 0, &mut rng, 0)?;
         total_events += s1.events;
         nprog += 1;
+        if c15 {
+            continue;
+        }
         // determinism: two more runs, then two under host load; only their summaries are compared
         let mut id = s1.events;
         let mut w = std::fs::OpenOptions::new().append(true).open(&log)?;
@@ -581,6 +658,23 @@ fn line_of(kind: u32, k: usize, rng: &mut Rng) -> String {
     }
 }
 
+/// grammar fuzzer for control lines (C15): field counts 0-5, empty fields, huge / hex / non-hex numbers
+fn fuzz_line(rng: &mut Rng) -> String {
+    let heads = ["cmd", "u8", "ioport", "", "CMD", "u16", "sync", "stdout", "ready", "u8 ", " cmd"];
+    let fields = ["", "0", "1", "b", "c", "ff", "100", "ffffd0", "fee000", "ffcf20", "ffffffff", "100000000", "fffffffffffffffff", "-1", "+1", "0x10", "g", "pause", "start",
+                  "stop", " ", "\t", "ffff80", "ffff88", "00000000000000000000ff", "é", "1e3", "0b1", "7fffffff", "80000000", "ffffe9", "ffffea", "400000", "5fffff"];
+    let n = rng.below(6);
+    let mut s = rng.pick(&heads).to_string();
+    for _ in 0..n {
+        s.push(':');
+        s.push_str(rng.pick(&fields));
+    }
+    if rng.chance(1, 40) {
+        s = "cmd:stop".into();
+    }
+    s
+}
+
 pub fn run_sock_replay(args: &Args) -> Result<()> {
     let outdir = args.req("out")?.to_string();
     let seed = args.num("seed", 1);
@@ -597,7 +691,8 @@ pub fn run_sock_replay(args: &Args) -> Result<()> {
     }
     let beh = std::sync::Arc::new(beh);
     let nb = beh.len();
-    let n_random = if tier == "thorough" { 1500 } else { 200 };
+    let fuzz = args.get("fuzz").is_some();
+    let n_random = if fuzz { if tier == "thorough" { 4000 } else { 600 } } else if tier == "thorough" { 1500 } else { 200 };
     let mut handles = Vec::new();
     for t in 0..threads {
         let outdir = outdir.clone();
@@ -632,6 +727,10 @@ pub fn run_sock_replay(args: &Args) -> Result<()> {
                         };
                         let mut b = Vec::new();
                         for i in 0..n {
+                            if fuzz {
+                                b.push(fuzz_line(&mut rng));
+                                continue;
+                            }
                             let kind = match rng.below(20) {
                                 0 => 1,
                                 1 | 2 => 2,
@@ -669,5 +768,102 @@ pub fn run_sock_replay(args: &Args) -> Result<()> {
         nh += b;
     }
     println!("{{\"driver\":\"sock-replay\",\"events\":{},\"histories\":{},\"tlc_behaviours\":{}}}", n, nh, nb);
+    Ok(())
+}
+
+// ------------------------------------------------------------------------------------------------
+// C18 outgoing framing over a REAL TCP connection on localhost: the emulator's own send worker
+// escapes and terminates every message; the harness is the client and records the byte stream.
+// ------------------------------------------------------------------------------------------------
+pub fn run_tcp_frame(args: &Args) -> Result<()> {
+    use std::io::Read;
+    let outdir = args.req("out")?.to_string();
+    let seed = args.num("seed", 1);
+    let tier = args.get("tier").unwrap_or("quick").to_string();
+    std::fs::create_dir_all(&outdir)?;
+    let mut rng = Rng::new(seed ^ hash_str("C18tcp"), 11);
+    *CONSOLE.lock().unwrap() = Some(ConsoleCapture::install(std::path::Path::new(&format!("{}/console.bin", outdir)))?);
+    *emu::setting::ENABLE_PRINT_OPCODE.write().unwrap() = false;
+    *emu::setting::ENABLE_PRINT_MESSAGES.write().unwrap() = false;
+    *emu::setting::ENABLE_WAIT_START.write().unwrap() = false;
+    let mut w = BufWriter::new(std::fs::File::create(format!("{}/tcp.ndjson", outdir))?);
+    let elf_path = format!("{}/tcp.elf", outdir);
+    let texts: Vec<Vec<u8>> = {
+        let mut v: Vec<Vec<u8>> = vec![
+            b"plain".to_vec(),
+            b"back\\slash and \\n literal".to_vec(),
+            b"line1\nline2\n".to_vec(),
+            b"\\".to_vec(),
+            b"\n".to_vec(),
+            b"\\\n\\n\n\\".to_vec(),
+            "h\\i\n\u{e9}\u{20ac}\u{1f600} end\\n\n".as_bytes().to_vec(),
+            vec![0, 1, 2, 10, 92, 110, 127],
+        ];
+        let n = if tier == "thorough" { 60 } else { 12 };
+        for _ in 0..n {
+            let len = rng.below(60);
+            let mut t = Vec::new();
+            while t.len() < len {
+                match rng.below(8) {
+                    0 => t.push(92),
+                    1 => t.push(10),
+                    2 => t.push(110),
+                    3 => t.extend_from_slice("\u{e9}".as_bytes()),
+                    4 => t.extend_from_slice("\u{1f600}".as_bytes()),
+                    _ => t.push(32 + rng.below(95) as u8),
+                }
+            }
+            v.push(t);
+        }
+        v
+    };
+    let mut id = 0u64;
+    for (k, text) in texts.iter().enumerate() {
+        let prog = prog_io(3 + (k % 4) as u16, text, "");
+        let file = elf_of(&prog, &mut rng);
+        std::fs::write(&elf_path, &file)?;
+        // find a free port: the emulator listens, the harness connects
+        let mut done = false;
+        for attempt in 0..20 {
+            let port = 21000 + ((seed as usize * 131 + k * 17 + attempt * 977) % 20000);
+            let addr = format!("127.0.0.1:{}", port);
+            let a2 = addr.clone();
+            let client = std::thread::spawn(move || -> Option<Vec<u8>> {
+                for _ in 0..400 {
+                    if let Ok(mut s) = std::net::TcpStream::connect(&a2) {
+                        let mut buf = Vec::new();
+                        let _ = s.read_to_end(&mut buf);
+                        return Some(buf);
+                    }
+                    std::thread::sleep(std::time::Duration::from_millis(5));
+                }
+                None
+            });
+            let mut cpu = Cpu::new();
+            emu::elf::load(elf_path.clone(), &mut cpu, String::new());
+            if cpu.connect_socket(&addr).is_err() {
+                let _ = client.join();
+                continue;
+            }
+            verif_hooks::sink_install();
+            let _ = verif_hooks::sink_take();
+            let r = std::panic::catch_unwind(std::panic::AssertUnwindSafe(|| cpu.run()));
+            let msgs: Vec<Vec<u8>> = verif_hooks::sink_take().into_iter().map(|s| s.into_bytes()).collect();
+            cpu.vh_detach_socket(); // closes the channel: the send worker flushes and shuts the stream down
+            drop(cpu);
+            let bytes = client.join().ok().flatten().unwrap_or_default();
+            let _ = console_take();
+            writeln!(w, "{{\"k\":\"tcp\",\"id\":{},\"res\":\"{}\",\"bytes\":{},\"msgs\":{}}}", id, if matches!(r, Ok(Ok(()))) { "ok" } else { "err" }, j_bytes(&bytes), j_msgs(&msgs))?;
+            id += 1;
+            done = true;
+            break;
+        }
+        if !done {
+            return Err(anyhow!("no free TCP port found"));
+        }
+    }
+    w.flush()?;
+    let _ = std::fs::remove_file(&elf_path);
+    eprintln!("{{\"driver\":\"tcp-frame\",\"events\":{},\"histories\":{}}}", id, id);
     Ok(())
 }
